@@ -41,7 +41,9 @@ def _frames(draw, max_rows=14, distinct_scores=False, min_per_class=0):
     pl = draw(st.integers(0, len(POS_LABELS) - 1))
     sc, ec = draw(gen.CONFIG)
     return dict(ncols=ncols, keys=[list(k) for k in keys], assign=list(assign), lab=lab, scores=scores,
-                pl=pl, sc=sc, ec=ec, index_seed=draw(st.integers(0, 10**6)))
+                pl=pl, sc=sc, ec=ec, index_seed=draw(st.integers(0, 10**6)),
+                frame_cols_reversed=draw(st.booleans()),
+                score_dtype=draw(st.sampled_from(["float", "float", "float", "uint8", "float32"])))
 
 
 def _thresholds():
@@ -63,10 +65,17 @@ def build_frame(fr):
     for c, name in enumerate(names):
         cols[name] = [fr["keys"][g][c] for g in fr["assign"]]
     data = dict(junk=list(range(n)))
-    data.update(cols)
+    # the frame may hold the group columns in another order than the one they are requested in
+    for name in (reversed(names) if fr.get("frame_cols_reversed") else names):
+        data[name] = cols[name]
     data["y"] = [pos_l if b else neg_l for b in fr["lab"]]
     data["other"] = ["u"] * n
-    data["s"] = fr["scores"]
+    if fr.get("score_dtype") == "uint8":   # scores quantised to integers 0..10 (tenths)
+        data["s"] = np.asarray([int(round(v * 10)) for v in fr["scores"]], dtype=np.uint8)
+    elif fr.get("score_dtype") == "float32":
+        data["s"] = np.asarray(fr["scores"], dtype=np.float32)
+    else:
+        data["s"] = fr["scores"]
     idx = np.random.RandomState(fr["index_seed"]).permutation(n) + 100
     df = pd.DataFrame(data, index=idx)
     group_columns = names if fr["ncols"] > 1 else names[0]
@@ -82,11 +91,21 @@ def group_rows(fr):
     return out
 
 
+def stored_score(fr, i):
+    """The value the score column actually holds for row i (see build_frame)."""
+    v = fr["scores"][i]
+    if fr.get("score_dtype") == "uint8":
+        return float(int(round(v * 10)))
+    if fr.get("score_dtype") == "float32":
+        return float(np.float32(v))
+    return v
+
+
 def ref_metric(fr, rows, t, metric):
     from score_analysis import ConfusionMatrix
 
-    pos = [fr["scores"][i] for i in rows if fr["lab"][i]]
-    neg = [fr["scores"][i] for i in rows if not fr["lab"][i]]
+    pos = [stored_score(fr, i) for i in rows if fr["lab"][i]]
+    neg = [stored_score(fr, i) for i in rows if not fr["lab"][i]]
     tp, fn, fp, tn = ref_cm(pos, neg, t, fr["sc"], fr["ec"])
     return float(getattr(ConfusionMatrix(matrix=[[tp, fn], [fp, tn]], binary=True), metric)())
 
@@ -250,8 +269,8 @@ def check_bootstrap(case):
                         f"value: values {val.tolist()} lower {lo.tolist()} upper {up.tolist()}")
     if sampler == "permute":
         # replay the sampler by hand: positions are those of the class's scores in ascending order
-        order_p = sorted((i for i in range(len(fr["lab"])) if fr["lab"][i]), key=lambda i: fr["scores"][i])
-        order_n = sorted((i for i in range(len(fr["lab"])) if not fr["lab"][i]), key=lambda i: fr["scores"][i])
+        order_p = sorted((i for i in range(len(fr["lab"])) if fr["lab"][i]), key=lambda i: stored_score(fr, i))
+        order_n = sorted((i for i in range(len(fr["lab"])) if not fr["lab"][i]), key=lambda i: stored_score(fr, i))
         np.random.seed(case["seed"])
         reps = []
         allrows = list(range(len(fr["assign"])))
